@@ -23,7 +23,20 @@ pub fn stream<T: Hash>(x: &T) -> Vec<u8> {
     r.0
 }
 
+/// Display and Debug under the formatter options a caller may use (width, alignment, fill, precision, sign, zero padding, the
+/// alternate forms): none of them may make formatting fail
+fn fmt_specs<T: std::fmt::Display + std::fmt::Debug>(x: &T) {
+    let _ = format!("{} {:?} {:#?}", x, x, x);
+    let _ = format!("{:<24} {:>24} {:^10} {:*^7} {:.6} {:.0} {:1.1} {:+} {:08} {:#}", x, x, x, x, x, x, x, x, x, x);
+    let _ = format!("{:<40?} {:.3?} {:>2?} {:08?}", x, x, x, x);
+    let (w, p) = (30usize, 2usize);
+    let _ = format!("{:w$.p$} {:>1$}", x, 3, w = w, p = p);
+}
+
 fn cstr_errs(cs: &[&CharacterString]) -> u32 {
+    for c in cs {
+        fmt_specs(*c);
+    }
     cs.iter().filter(|c| String::try_from((**c).clone()).is_err()).count() as u32
 }
 
@@ -31,8 +44,10 @@ fn observe_rr(rr: &ResourceRecord, qs: &[Question], errs: &mut u32) {
     let _ = format!("{:?}", rr);
     let _ = rr.name.to_string();
     let _ = format!("{}", rr.name);
+    fmt_specs(&rr.name);
     for l in rr.name.get_labels() {
         let _ = format!("{:?} {}", l, l);
+        fmt_specs(l);
     }
     let c = rr.clone();
     let o = rr.clone().into_owned();
@@ -83,6 +98,7 @@ pub fn run_observe(args: &[&str]) -> String {
     let _ = p.clone();
     for q in &p.questions {
         let _ = format!("{:?} {}", q, q.qname);
+        fmt_specs(&q.qname);
         let _ = q.clone().into_owned();
         let _ = stream(&q.qname);
     }
